@@ -97,14 +97,22 @@ def inject(doc, f):
         elif x == "enum":
             nb = {"t": "type", "name": "@zu", "annot": "", "body": {"k": "obj", "n": "", "props": [{"key": "e", "vk": "enum", "vn": "@noenum"}], "allOf": []}}
         elif x == "tag":
+            # the undeclared name: preferably one that an untagged interaction written BEFORE got from its path (such a
+            # tag exists in the catalog, but it was never declared)
+            bad = "@notag"
+            for ub in d:
+                ms = [(ub["m"], ub["m"]["path"])] if ub["t"] == "method" else [(mm, ub["path"]) for mm in ub.get("methods", [])] if ub["t"] == "url" else []
+                for mm, pth in ms:
+                    if not mm["tags"] and not (ub["t"] == "url" and ub["tags"]) and pth and pth[0].isalpha() and ("@" + pth[0]) not in [t["name"] for t in d if t["t"] == "tag"]:
+                        bad = "@" + pth[0]
             # preferably on a method inside a URL block that has URL-level Tags of its own (the method's list wins
             # and must be validated all the same)
             for bi, ub in enumerate(d):
-                if ub["t"] == "url" and ub["tags"] and ub["methods"]:
-                    ub["methods"][0]["tags"] = ["@notag"]
+                if ub["t"] == "url" and ub["tags"] and ub["methods"] and (i + len(d)) % 2:
+                    ub["methods"][0]["tags"] = [bad]
                     return d, [bi + 1], None
             m = simple_method("GET", ["zu"])
-            m["tags"] = ["@notag"]
+            m["tags"] = [bad]
             nb = {"t": "method", "m": m}
         else:
             nb = {"t": "paste", "name": "@nomacro"}
